@@ -1039,7 +1039,10 @@ class Server:
         base_path = connection.user.base_path
         real_path = base_path / str(resolved_virtual_path.relative_to("/"))
         # replace with `is_relative_to` check after 3.9+ requirements lands
-        if not real_path.is_relative_to(base_path):
+        # A virtual segment may still contain the separator of the *real* path
+        # flavour ("..\\.." is one posix segment but two windows parts), so the
+        # joined path must not contain ".." below the base path either.
+        if not real_path.is_relative_to(base_path) or ".." in real_path.parts[len(base_path.parts) :]:
             real_path = base_path
             resolved_virtual_path = pathlib.PurePosixPath("/")
         return real_path, resolved_virtual_path
